@@ -206,7 +206,7 @@ def death_during_manager_msg(seed: int, n: int) -> List[List[dict]]:
     out = []
     notice = (32, 33, 8)
     for v_logger in (0, 1):
-        for trigger in ("connect", "ready", "setname", "leave", "drop", "timing", "subscribe", "publish"):
+        for trigger in ("connect", "ready", "setname", "leave", "drop", "timing", "active", "subscribe", "publish"):
             for wcase in ("all", "m1-not-writable", "second-dead"):
                 b = []
                 cast = [("m1", 2, 0), ("m2", 3, 0), ("v", 4, v_logger), ("p", 5, 0), ("q", 6, 0)]
@@ -217,7 +217,8 @@ def death_during_manager_msg(seed: int, n: int) -> List[List[dict]]:
                     b += [snd(c, con2(mid, 0, c, lg=lg))]
                 b += [rnd("", names, names)]
                 for c, mid in (("m1", 2), ("m2", 3), ("v", 4)):
-                    for t in notice + (80,):
+                    # for the ACTIVE_CLIENTS trigger the victim does not get TIMING, so that its death is found inside the report loop
+                    for t in notice + (() if (trigger == "active" and c == "v") else (80,)):
                         b += [snd(c, sub(15, mid, t)), rnd("", [c], names)]
                 b += [snd("v", sub(15, 4, 1234)), snd("q", sub(15, 6, 1234)), rnd("", ["v", "q"], names)]
                 b += [{"a": "Die", "c": "v"}]
@@ -236,6 +237,8 @@ def death_during_manager_msg(seed: int, n: int) -> List[List[dict]]:
                     b += [snd("p", data(1234, 5, 0, 0, 1)), rnd("", ["p"], [c for c in W if c != "q"])]
                 elif trigger == "timing":
                     b += [{"a": "Tick", "n": 3}, rnd("", [], [])]
+                elif trigger == "active":       # the 5 s ACTIVE_CLIENTS report publishes one CLIENT_INFO per module
+                    b += [{"a": "Tick", "n": 11}, rnd("", [], [])]
                 elif trigger == "subscribe":
                     b += [snd("p", sub(15, 5, 777)), rnd("", ["p"], W)]
                 elif trigger == "publish":
